@@ -1,13 +1,310 @@
 /-
-C10 — the mmap store returns exactly what was written, across growth and reopen.   (theorems are being added)
+C10 — the mmap store returns exactly what was written, across growth and reopen.
+
+Model: `Model/MmapDict.lean` (bytes of the file, capacity, used, positions).  Spec: `Spec/MmapDict.lean` (insertion-ordered
+map key → (value, timestamp) as 64-bit patterns).  All theorems are for every history, every key (any encoded length, any
+Unicode scalar values), every pair of 64-bit patterns, any number of doublings and reopens.  The only hypotheses:
+`8 ≤ initSize` (the initial file holds a header), `4 ≤ pageSize`, and `Fits`: the file stays below 2^31 bytes
+(`struct.pack('i', used)` raises from there on — see obligations/C10.json, assumptions).
 -/
 import PromVerif.Model.MmapDict
 import PromVerif.Spec.MmapDict
+import PromVerif.Lemmas.MmapStep
 
 namespace PromVerif.Props.C10
-open PromVerif.Generated.Mmap
+open PromVerif.Py PromVerif.Model.MmapDict PromVerif.Generated.Mmap PromVerif.Lemmas.Mmap
+open PromVerif.Spec.MmapDict (Store)
 
 /-- the extractor found every site of mmap_dict.py in the shape it understands -/
 theorem extract_ok : extractOk = true := by decide
+
+/-! ### layout arithmetic, for every key length (all residues mod 8), on the two extracted source expressions -/
+
+/-- reader and writer agree on the padding; the value field is 8-aligned; the key is padded by 1..8 bytes -/
+theorem layout_all_lengths (n : Nat) :
+    n + padCountWriter n = paddedLenReader n ∧ (lenFieldSkip + paddedLenReader n) % 8 = 0 ∧
+    n < paddedLenReader n ∧ paddedLenReader n ≤ n + 8 ∧ (lenFieldSkip + paddedLenReader n + valueSkip) % 8 = 0 := by
+  unfold padCountWriter paddedLenReader lenFieldSkip valueSkip; omega
+
+example : paddedLenReader 0 = 4 ∧ paddedLenReader 3 = 4 ∧ paddedLenReader 4 = 12 ∧ paddedLenReader 11 = 12 := by decide
+
+/-! ### the invariant -/
+
+/-- the abstraction: what `read_value` returns for every key of the in-memory index, in index order -/
+abbrev abs (d : MmapedDict) : Store := absOf d
+
+/-- representation invariant without the zero tail (this is what survives a crash, C11): the file is header + the encoded
+entries of some entry list `es` with distinct keys + any tail; `used` counts exactly the entries; capacity = file
+length; positions = offsets of the value fields of `es`, in order -/
+def Inv (d : MmapedDict) : Prop := ∃ es tail, Rep d es tail
+
+/-- the full invariant: additionally every byte beyond `used` is zero -/
+def WF (d : MmapedDict) : Prop := ∃ es tail, Rep d es tail ∧ ZeroTail tail
+
+theorem abs_eq {d es tail} (h : Rep d es tail) : abs d = triples es := h.absOf_eq
+
+theorem WF.inv {d} (h : WF d) : Inv d := let ⟨es, tail, hr, _⟩ := h; ⟨es, tail, hr⟩
+
+/-- what `WF` says in plain terms: header ≥ 8 and equal to the stored counter, entries tile [8, used) in multiples of 8,
+capacity = file length ≥ used, every indexed value field is 8-aligned and inside the used region, the index has one
+position per key, bytes beyond `used` are zero -/
+theorem wf_facts {d} (h : WF d) :
+    8 ≤ d.used ∧ d.used % 8 = 0 ∧ unpackInt d.file headerPos = .ok (d.used : Int) ∧
+    d.capacity = d.file.length ∧ d.used ≤ d.capacity ∧
+    (∀ x ∈ d.positions, x.2 % 8 = 0 ∧ 8 ≤ x.2 ∧ x.2 + 16 ≤ d.used) ∧ (d.positions.map (·.1)).Nodup ∧
+    (∀ b ∈ d.file.drop d.used, b = 0) := by
+  obtain ⟨es, tail, hr, hz⟩ := h
+  have hu := hr.file.used_eq
+  have hl := hr.file.length
+  have hmod : (encEntries es).length % 8 = 0 := by
+    clear hu hl hr
+    induction es with
+    | nil => simp
+    | cons e es ih => simp; have := entryLen_mod e.key; omega
+  refine ⟨by omega, by omega, hr.file.unpack_header, hr.cap, by rw [hr.cap]; omega, ?_, ?_, ?_⟩
+  · intro x hx
+    rw [hr.pos] at hx
+    have := posOf_aligned es 8 (by omega) x hx
+    have h8 : 8 ≤ x.2 := by
+      clear this
+      have : ∀ (es : List Entry) (p : Nat), ∀ x ∈ posOf p es, p ≤ x.2 := by
+        intro es
+        induction es with
+        | nil => intro p x hx; simp [posOf] at hx
+        | cons e es ih =>
+          intro p x hx
+          simp only [posOf, List.mem_cons] at hx
+          rcases hx with rfl | hx
+          · simp [valuePos]; omega
+          · have := ih _ x hx; omega
+      exact this es 8 x hx
+    omega
+  · rw [hr.keys_eq]; exact hr.nodup
+  · intro b hb
+    rw [hr.file.file_eq, ← List.append_assoc, List.drop_left' (by simp; omega)] at hb
+    exact hz b hb
+
+/-- room for the entry an operation may have to create: the file stays below 2^31 bytes -/
+def Fits (d : MmapedDict) (op : Op) : Prop := d.used + opNeed (d.positions.map (·.1)) op < 2147483648
+
+/-- the same for a whole history of a fresh writer: one entry per distinct key -/
+def FitsAll (ops : List Op) : Prop := 8 + need [] ops < 2147483648
+
+/-! ### constructor and steps -/
+
+/-- a fresh store (absent or empty file) opens, is well formed and empty -/
+theorem wf_init (initSize : Nat) (h : 8 ≤ initSize) :
+    ∃ d tr, init initSize [] = .ok (d, tr) ∧ WF d ∧ abs d = [] := by
+  refine ⟨freshStore initSize, _, init_fresh initSize h, ⟨[], _, freshStore_rep initSize h, ?_⟩, ?_⟩
+  · intro b hb; simp [zeros] at hb; exact hb.2
+  · exact abs_eq (freshStore_rep initSize h)
+
+example : ∃ d tr, init 64 [] = .ok (d, tr) ∧ WF d ∧ abs d = [] := wf_init 64 (by decide)
+
+/-- every operation succeeds, preserves the invariant and refines the spec step:
+`abs (step d op) = Spec.step (abs d) op` -/
+theorem inv_step {d} (h : Inv d) (op : Op) (initSize : Nat) (hf : Fits d op) :
+    ∃ d' tr, step initSize d op = .ok (d', tr) ∧ Inv d' ∧ abs d' = Spec.MmapDict.step (abs d) (toSpec op) := by
+  obtain ⟨es, tail, hr⟩ := h
+  unfold Fits at hf
+  rw [hr.keys_eq] at hf
+  obtain ⟨d', tr, es', tail', hs, hr', ht, _, _, _⟩ := step_rep hr op initSize hf
+  exact ⟨d', tr, hs, ⟨es', tail', hr'⟩, by rw [abs_eq hr', abs_eq hr, ht]⟩
+
+/-- … and the zero tail is preserved as well -/
+theorem wf_step {d} (h : WF d) (op : Op) (initSize : Nat) (hf : Fits d op) :
+    ∃ d' tr, step initSize d op = .ok (d', tr) ∧ WF d' ∧ abs d' = Spec.MmapDict.step (abs d) (toSpec op) := by
+  obtain ⟨es, tail, hr, hz⟩ := h
+  unfold Fits at hf
+  rw [hr.keys_eq] at hf
+  obtain ⟨d', tr, es', tail', hs, hr', ht, hz', _, _⟩ := step_rep hr op initSize hf
+  exact ⟨d', tr, hs, ⟨es', tail', hr', hz' hz⟩, by rw [abs_eq hr', abs_eq hr, ht]⟩
+
+/-- `abs (step d op) = Spec.step (abs d) op`, as an equation about whatever the step returned -/
+theorem abs_step {d d' tr} (h : Inv d) (op : Op) (initSize : Nat) (hf : Fits d op)
+    (hs : step initSize d op = .ok (d', tr)) : abs d' = Spec.MmapDict.step (abs d) (toSpec op) := by
+  obtain ⟨d'', tr'', hs', _, ha⟩ := inv_step h op initSize hf
+  rw [hs] at hs'
+  cases hs'
+  exact ha
+
+/-! ### the three readers -/
+
+/-- `read_all_values()` returns the abstract state: every key once, in first-write order, with the last value and
+timestamp bit for bit (by `inv_step`, `abs` follows the spec) -/
+theorem read_all_eq_spec {d} (h : Inv d) : readAllValues d = .ok (abs d) := by
+  obtain ⟨es, tail, hr⟩ := h
+  unfold readAllValues
+  simp only [hr.file.raw_ok, bind, Except.bind, abs_eq hr]
+  exact congrArg _ (scanOut_triples es 8)
+
+/-- the collector's file reader on the bytes returns what `read_all_values()` returns on the handle -/
+theorem reader_agrees {d} (h : Inv d) (pageSize : Nat) (hp : 4 ≤ pageSize) :
+    (readAllValuesFromFile pageSize (close d)).map (fun items => items.map fun (x : Item) => (x.1, x.2.1, x.2.2.1))
+      = readAllValues d := by
+  obtain ⟨es, tail, hr⟩ := h
+  rw [read_all_eq_spec ⟨es, tail, hr⟩, abs_eq hr]
+  simp only [close, hr.file.fromFile_ok pageSize hp, Except.map]
+  exact congrArg _ (scanOut_triples es 8)
+
+/-- close and reopen by a new writer, at any point: same state (indeed the same object), no file effect -/
+theorem reopen_preserves {d} (h : Inv d) (initSize : Nat) :
+    ∃ d', init initSize (close d) = .ok (d', []) ∧ abs d' = abs d ∧ Inv d' ∧ d' = d := by
+  obtain ⟨es, tail, hr⟩ := h
+  exact ⟨d, init_reopen hr initSize, rfl, ⟨es, tail, hr⟩, rfl⟩
+
+/-- `read_value` after reopen returns the stored pair of every key -/
+theorem read_value_after_reopen {d} (h : Inv d) (initSize : Nat) (k : Key) (v t : UInt64) (hk : (k, v, t) ∈ abs d) :
+    ∃ d', init initSize (close d) = .ok (d', []) ∧ readValue d' k = .ok ((v, t), d', []) := by
+  obtain ⟨es, tail, hr⟩ := h
+  refine ⟨d, init_reopen hr initSize, ?_⟩
+  rw [abs_eq hr] at hk
+  obtain ⟨e, he, hke⟩ := List.mem_map.mp hk
+  cases hke
+  obtain ⟨es1, e', es2, rfl, hk', hn⟩ := split_first es e.key (List.mem_map.mpr ⟨e, he, rfl⟩)
+  -- keys are distinct, so the first entry with this key is `e`
+  have hee : e' = e := by
+    have hnd := hr.nodup
+    rcases List.mem_append.mp he with h1 | h1
+    · exact absurd (List.mem_map.mpr ⟨e, h1, rfl⟩) hn
+    · rcases List.mem_cons.mp h1 with rfl | h2
+      · rfl
+      · exfalso
+        simp only [keys_append, keys_cons] at hnd
+        have := (List.nodup_append.mp hnd).2.1
+        rw [List.nodup_cons] at this
+        exact this.1 (hk' ▸ List.mem_map.mpr ⟨e, h2, rfl⟩)
+  subst hee
+  exact readValue_present hr hn
+
+/-! ### growth: zero, one or several doublings -/
+
+/-- the doubling loop terminates from any capacity ≥ 1 for any demand, through an increasing chain of capacities, and
+ends with room for the entry (the fuel of the model, `need`, always suffices) -/
+theorem growth_terminates (cap need : Nat) (h : 1 ≤ cap) :
+    ∃ caps, growCaps need cap need = .ok caps ∧ List.Pairwise (· ≤ ·) (cap :: caps) ∧ need ≤ lastCap cap caps :=
+  growCaps_ok need cap need h (by omega)
+
+example : growCaps 60 64 60 = .ok [] := rfl
+example : growCaps 100 64 100 = .ok [128] := rfl
+example : growCaps 1000 64 1000 = .ok [128, 256, 512, 1024] := rfl
+
+/-! ### whole histories -/
+
+/-- every history of a fresh writer runs without error, ends well formed, and all three readers return the spec state
+(`reopen` steps included at any point, any number of times; any growth) -/
+theorem run_refines (initSize pageSize : Nat) (ops : List Op) (hi : 8 ≤ initSize) (hp : 4 ≤ pageSize) (hf : FitsAll ops) :
+    ∃ d tr, run initSize ops = .ok (d, tr) ∧ WF d ∧ abs d = Spec.MmapDict.run [] (ops.map toSpec) ∧
+      readAllValues d = .ok (Spec.MmapDict.run [] (ops.map toSpec)) ∧
+      (readAllValuesFromFile pageSize (close d)).map (fun items => items.map fun (x : Item) => (x.1, x.2.1, x.2.2.1))
+        = .ok (Spec.MmapDict.run [] (ops.map toSpec)) := by
+  have hr0 := freshStore_rep initSize hi
+  obtain ⟨d, tr, es, tail, hrun, hr, ht, hz⟩ := runFrom_rep initSize ops hr0 (by simpa [freshStore, FitsAll] using hf)
+  have hzt : ZeroTail (zeros (initSize - 8)) := by intro b hb; simp [zeros] at hb; exact hb.2
+  have ha : abs d = Spec.MmapDict.run [] (ops.map toSpec) := by rw [abs_eq hr, ht]; rfl
+  refine ⟨d, .createEmpty :: ([.truncate initSize, .sliceWrite 0 (le 4 8)] ++ tr),
+    by simp [run, init_fresh initSize hi, hrun, bind, Except.bind], ⟨es, tail, hr, hz hzt⟩, ha, ?_, ?_⟩
+  · rw [read_all_eq_spec ⟨es, tail, hr⟩, ha]
+  · rw [reader_agrees ⟨es, tail, hr⟩ pageSize hp, read_all_eq_spec ⟨es, tail, hr⟩, ha]
+
+/-! ### what the spec state is: every key once, in first-write order, last value bit for bit -/
+
+theorem spec_keys_first_write_order (ops : List Op) :
+    (Spec.MmapDict.run [] (ops.map toSpec)).map (·.1) = ops.foldl opSeen [] ∧
+    ((Spec.MmapDict.run [] (ops.map toSpec)).map (·.1)).Nodup := by
+  have gen : ∀ (ops : List Op) (s : Store), (s.map (·.1)).Nodup →
+      (Spec.MmapDict.run s (ops.map toSpec)).map (·.1) = ops.foldl opSeen (s.map (·.1)) ∧
+      ((Spec.MmapDict.run s (ops.map toSpec)).map (·.1)).Nodup := by
+    intro ops
+    induction ops with
+    | nil => intro s hs; exact ⟨rfl, hs⟩
+    | cons op ops ih =>
+      intro s hs
+      have key : (Spec.MmapDict.step s (toSpec op)).map (·.1) = opSeen (s.map (·.1)) op := by
+        have hw : ∀ (s : Store) (k : Key) (v t : UInt64),
+            (s.write k v t).map (·.1) = if k ∈ s.map (·.1) then s.map (·.1) else s.map (·.1) ++ [k] := by
+          intro s k v t
+          induction s with
+          | nil => simp [Store.write]
+          | cons e s ih =>
+            by_cases h : e.1 = k
+            · simp [Store.write, h]
+            · have h' : ¬ k = e.1 := fun x => h x.symm
+              simp only [Store.write, h, if_false, List.map_cons, ih, List.mem_cons, h', false_or]
+              split <;> simp
+        have hh : ∀ (s : Store) (k : Key), s.has k = decide (k ∈ s.map (·.1)) := by
+          intro s k
+          induction s with
+          | nil => simp [Store.has]
+          | cons e s ih =>
+            simp only [Store.has, List.any_cons, List.map_cons, List.mem_cons] at ih ⊢
+            rw [ih]
+            by_cases h : e.1 = k
+            · simp [h]
+            · have h' : ¬ k = e.1 := fun x => h x.symm
+              simp [h, h']
+        cases op with
+        | write k v t => simp [toSpec, Spec.MmapDict.step, opSeen, opKey?, hw]
+        | read k =>
+          simp only [toSpec, Spec.MmapDict.step, opSeen, opKey?, Store.touch, hh]
+          by_cases h : k ∈ s.map (·.1) <;> simp [h]
+        | reopen => simp [toSpec, Spec.MmapDict.step, opSeen, opKey?]
+      have hs' : ((Spec.MmapDict.step s (toSpec op)).map (·.1)).Nodup := by
+        rw [key]
+        unfold opSeen
+        split
+        · split
+          · exact hs
+          · rename_i k _ hk
+            rw [List.nodup_append]
+            exact ⟨hs, by simp, by intro a ha b hb; simp at hb; subst hb; exact fun e => hk (e ▸ ha)⟩
+        · exact hs
+      have := ih (Spec.MmapDict.step s (toSpec op)) hs'
+      simp only [List.map_cons, Spec.MmapDict.run, List.foldl_cons] at this ⊢
+      rw [key] at this
+      exact this
+  simpa using gen ops [] (by simp)
+
+/-- the value and timestamp a key holds are the last ones written, bit for bit; other keys are untouched -/
+theorem spec_last_write_wins (s : Store) (k k' : Key) (v t : UInt64) :
+    (s.write k v t).get k = some (v, t) ∧ (k' ≠ k → (s.write k v t).get k' = s.get k') := by
+  induction s with
+  | nil =>
+    constructor
+    · simp [Store.write, Store.get]
+    · intro h; have : (k == k') = false := by simpa using fun e => h e.symm
+      simp [Store.write, Store.get, this]
+  | cons e s ih =>
+    by_cases h : e.1 = k
+    · constructor
+      · simp [Store.write, h, Store.get]
+      · intro hne
+        have h1 : (k == k') = false := by simpa using fun e => hne e.symm
+        have h2 : (e.1 == k') = false := by rw [h]; exact h1
+        simp [Store.write, h, Store.get, h1]
+    · have hb : (e.1 == k) = false := by simpa using h
+      constructor
+      · have := ih.1
+        simp only [Store.get] at this
+        simp [Store.write, h, Store.get, hb, this]
+      · intro hne
+        have := ih.2 hne
+        simp only [Store.get] at this
+        simp only [Store.write, h, if_false, Store.get, List.find?_cons]
+        split <;> simp_all
+
+/-! ### non-vacuity: a concrete 3-write history over a 64-byte file that crosses a doubling, then reopens and overwrites -/
+
+def demoOps : List Op :=
+  [.write ['a'] 1 2, .write ['é', 'x'] 0x7ff8000000000001 0x8000000000000000,
+   .write ['k', 'e', 'y', '-', '3'] 5 6, .reopen, .write ['a'] 7 8, .read ['n', 'e', 'w']]
+
+theorem demo_fits : FitsAll demoOps := by unfold FitsAll; decide
+
+example : ∃ d tr, run 64 demoOps = .ok (d, tr) ∧ WF d ∧
+    abs d = [(['a'], 7, 8), (['é', 'x'], 0x7ff8000000000001, 0x8000000000000000), (['k', 'e', 'y', '-', '3'], 5, 6),
+             (['n', 'e', 'w'], 0, 0)] := by
+  obtain ⟨d, tr, h1, h2, h3, _⟩ := run_refines 64 4096 demoOps (by decide) (by decide) demo_fits
+  exact ⟨d, tr, h1, h2, by rw [h3]; decide⟩
 
 end PromVerif.Props.C10
